@@ -20,7 +20,9 @@ ASSUMPTIONS = ["a check rejection is recognised operationally (ValueError with t
 BAD_VALUES = ["int0", "int1", "none", "str", "np_true", "float2", "list", "object", "np_false", "str_false"]
 CELL = [3.0, 4.0, 5.0, 80.0, 95.0, 100.0]
 CELLS = [[3.0, 4.0, 5.0, 80.0, 95.0, 100.0], [4.0, 4.0, 4.0, 90.0, 90.0, 90.0005], [4.0, 4.0, 4.0, 90.0, 90.0, 90.0], [3.2, 3.2, 5.1, 90.0, 90.0, 120.0],
-         [5.0, 6.0, 7.0, 90.0, 105.0, 90.0], [4.0, 4.00004, 4.0, 89.9996, 90.0, 90.0003]]
+         [5.0, 6.0, 7.0, 90.0, 105.0, 90.0], [4.0, 4.00004, 4.0, 89.9996, 90.0, 90.0003],
+         # the ends of the cell range: volume 0.2 A^3 and 9e7 A^3 (a handedness test must not depend on the size of the cell)
+         [0.5, 0.6, 0.7, 85.0, 95.0, 100.0], [400.0, 450.0, 500.0, 90.0, 95.0, 90.0]]
 
 
 def cell_of(op):
@@ -276,7 +278,7 @@ def make_machine(ctx):
             self.step({"op": "assign_bad", "tag": tag})
 
         @rule(U=valid_U(), mod=st.sampled_from(MODS), api=st.sampled_from(U_APIS + ["ubi_to_u", "ubi_to_u_and_eps", "ubi_to_rod", "ub_to_u_b"]), sys=st.integers(1, 7), shared=st.booleans(),
-              cell=st.integers(0, 5), dcell=st.sampled_from([0.0, 1e-5, -2e-5, 4e-5, 1e-3]))
+              cell=st.integers(0, len(CELLS) - 1), dcell=st.sampled_from([0.0, 1e-5, -2e-5, 4e-5, 1e-3]))
         def valid_matrix(self, U, mod, api, sys, shared, cell, dcell):
             if api in ("ubi_to_u", "ubi_to_u_and_eps", "ubi_to_rod", "ub_to_u_b") and U["kind"] == "noise7":
                 U = dict(U, kind="exact")        # these take a UBI / UB built from an exact rotation
